@@ -312,7 +312,7 @@ PROPS = {
         "assumptions": ["std::mt19937_64 seeded from the case PRNG behaves as an ideal source"],
     },
     "C07": {
-        "lean_modules": ["StimModel.Props.C07", "StimModel.Props.C07b"],
+        "lean_modules": ["StimModel.Props.C07", "StimModel.Props.C07b", "StimModel.Props.C07c"],
         "builds": ["asan"],
         "areas": [
             {"area": "text", "n": {"quick": 800, "thorough": 16000}, "replayable": True, "builds": ["asan"]},
